@@ -87,6 +87,34 @@ fn main() {
                 worker_main(check.as_ref(), tier, seed, shard, nshards, &outdir, part, skip);
             });
         }
+        "mirilane" => {
+            // pvcheck mirilane <ID> <tier> <seed> <direct|nodirect> <gen:first:count,...>   (run under Miri)
+            let id = args.get(2).cloned().unwrap_or_default();
+            let tier = Tier::parse(args.get(3).map(|s| s.as_str()).unwrap_or("quick")).unwrap_or(Tier::Quick);
+            let seed: u64 = args.get(4).and_then(|s| s.parse().ok()).unwrap_or(1);
+            let direct = args.get(5).map(|s| s == "direct").unwrap_or(false);
+            let spec = args.get(6).cloned().unwrap_or_default();
+            let check = pvmon::checks::by_id(&id).expect("check id");
+            let mut n = 0;
+            if direct {
+                println!("MIRI-BEGIN direct-projection");
+                let k = pvmon::checks::mirilane::direct_projection();
+                println!("MIRI-DIRECT {}", k);
+            }
+            for part in spec.split(',').filter(|s| !s.is_empty()) {
+                let f: Vec<&str> = part.split(':').collect();
+                let gen = f[0];
+                let first: u64 = f.get(1).and_then(|s| s.parse().ok()).unwrap_or(0);
+                let count: u64 = f.get(2).and_then(|s| s.parse().ok()).unwrap_or(0);
+                for index in first..first + count {
+                    println!("MIRI-BEGIN {} {} {}", id, gen, index);
+                    let out = check.run_case(gen, seed, index, tier);
+                    n += 1;
+                    println!("MIRI-CASE {} {} {} violations={} {}", id, gen, index, out.violations.len(), out.violations.first().map(|v| v.signature.clone()).unwrap_or_default());
+                }
+            }
+            println!("MIRI-DONE cases={}", n);
+        }
         "c09seq" => {
             // helper of C09's cross-process lane: print the L1 hash of one program's answer sequence
             let dgen = args.get(2).cloned().unwrap_or_default();
